@@ -7,7 +7,7 @@ Open Scope Z_scope.
 Lemma wf_parts : forall c, wf c = true ->
   1 <= c_limit c /\ forallb wf_script_entry (c_script c) = true.
 Proof.
-  intros c W. unfold wf in W. repeat (apply andb_true_iff in W as [W ?]). split; [lia | assumption].
+  intros c W. unfold wf, wf_input in W. repeat (apply andb_true_iff in W as [W ?]). split; [lia | assumption].
 Qed.
 
 (** every well-formed byte-moving call returns, and ends in [Final] *)
@@ -17,7 +17,8 @@ Proof.
   intros c W MB. destruct (wf_parts c W) as [LIM WS].
   unfold run_call. unfold moves_bytes in MB. destruct (c_shape c) as [d|d fl| |] eqn:SH; try discriminate.
   - assert (L1 : c_lens c = [hd O (c_lens c)]).
-    { unfold wf in W. rewrite SH in W. apply andb_true_iff in W as [_ W].
+    { unfold wf, wf_input in W. rewrite SH in W. apply andb_true_iff in W as [W _].
+      apply andb_true_iff in W as [_ W].
       destruct (c_lens c) as [|a [|b t]]; cbn in W; try discriminate. reflexivity. }
     pose proof (run_buf_ok d c WS) as B.
     destruct (run_buf d (c_limit c) (hd O (c_lens c)) (c_script c) (init_st c)) as [[r| |] s]; try contradiction.
@@ -51,7 +52,7 @@ Proof.
       destruct (run_accept (c_limit c) (c_script c) (init_st c)) as [[r| |] s]; try contradiction.
       cbn [ok_C18]. apply final18_C18. rewrite SH. exact B.
     + assert (NE : forallb no_eintr (firstn 1 (c_script c)) = true).
-      { unfold wf in W. rewrite SH in W. apply andb_true_iff in W as [_ W]. exact W. }
+      { unfold wf, no_connect_eintr in W. rewrite SH in W. apply andb_true_iff in W as [_ W]. exact W. }
       pose proof (run_connect_ok c LIM NE) as B.
       destruct (run_connect (c_limit c) (c_script c) (init_st c)) as [[r| |] s]; try contradiction.
       cbn [ok_C18]. apply final18_C18. rewrite SH. exact B.
